@@ -1630,6 +1630,67 @@ theorem remove_add_reuses {s : CellStore} (h : CellInv s) {cell : Int} (hv : s.v
     (by rw [hnp]; exact hnn)
   exact ⟨hok, by rw [hcell, hbl]⟩
 
+
+/-! ### `each_ref_cell_having_node2`: `degree_with2` / `list_with2` -/
+
+theorem count_map_const {α} (l : List α) (cell c : Int) :
+    (l.map fun _ => cell).count c = if cell = c then l.length else 0 := by
+  induction l with
+  | nil => simp
+  | cons a rest ih =>
+    simp only [List.map_cons, List.count_cons, ih, List.length_cons]
+    by_cases h : cell = c
+    · simp [h]
+    · simp [h]
+
+theorem filter_range_count (r : List Int) (x : Int) :
+    ∀ np, np ≤ r.length →
+      ((List.range np).filter fun k => x == r.getD k (-1)).length = (r.take np).count x := by
+  intro np
+  induction np with
+  | zero => intro _; simp
+  | succ np ih =>
+    intro hle
+    have hlt : np < r.length := by omega
+    rw [List.range_succ, List.filter_append, List.length_append, ih (by omega), List.take_add_one,
+      List.count_append, List.getElem?_eq_getElem hlt]
+    have hg : r.getD np (-1) = r[np] := by simp [List.getD_eq_getElem?_getD, hlt]
+    simp only [List.filter_cons, List.filter_nil, hg, Option.toList_some, List.count_cons, List.count_nil,
+      Nat.zero_add]
+    by_cases h : x = r[np]
+    · subst h; simp
+    · have h' : ¬ (r[np] = x) := fun e => h e.symm
+      simp [h, h']
+
+theorem count_flatMap_having (l : List Int) (f : Int → List Int) (m : Int → Nat) (c : Int)
+    (hf : ∀ cell, (f cell).count c = if cell = c then m cell else 0) :
+    (l.flatMap f).count c = l.count c * m c := by
+  induction l with
+  | nil => simp
+  | cons a rest ih =>
+    rw [List.flatMap_cons, List.count_append, ih, hf a, List.count_cons]
+    by_cases h : a = c
+    · subst h; simp [Nat.add_mul]; omega
+    · simp [h]
+
+/-- `each_ref_cell_having_node2(node0,node1)` reports every valid cell once per pair
+    (occurrence of `node0`, occurrence of `node1`): the multiset behind `degree_with2` and `list_with2` -/
+theorem having2_count {s : CellStore} (h : CellInv s) (n0 n1 c : Int) :
+    (s.having2 n0 n1).count c =
+      if s.validCell c = true then (s.cellNodes c).count n0 * (s.cellNodes c).count n1 else 0 := by
+  unfold having2
+  rw [count_flatMap_having (s.adj.first n0) _
+    (fun cell => ((List.range s.nodePer).filter fun k => n1 == s.c2nAt k cell.toNat).length) c
+    (fun cell => count_map_const _ cell c), h.adj n0 c]
+  split
+  · rename_i hv
+    obtain ⟨_, hlt, _⟩ := validCell_iff.1 hv
+    have hrl := row_length h hlt
+    have := filter_range_count (s.row c.toNat) n1 s.nodePer (by have := h.per.2.1; omega)
+    simp only [c2nAt, cellNodes] at this ⊢
+    rw [this]
+  · simp
+
 end CellStore
 
 end Refine.Model.CellStore
